@@ -27,7 +27,7 @@ def cases(tier, seed):
         for D in spec["dims"]:
             if tier == "quick" and D == 3 and spec["dims"] != (3,) and env.crc(name) % 5:
                 continue            # quick tier: 3D for the 3D-only classes and a fifth of the others
-            orders = [None] if spec["linear"] else ([2 + 2 * (env.crc(name) % 2), 1 + 2 * (env.crc(name) % 2)][: 1 + (D == 1)] if tier == "quick" else [1, 2, 3, 4])
+            orders = [None] if spec["linear"] else ([[2, 4, 1, 3][(env.crc(name) + D) % 4]] if tier == "quick" else [1, 2, 3, 4])
             if tier == "thorough" and not spec["linear"]:
                 orders = [0] + orders
             for o in orders:
